@@ -660,6 +660,19 @@ def oracle(seed, tier):
                                                        'a_thread_descheduled_at_its_lock_acquisition': pre % 30}, **cv[0]), cv[1])
         if res.enough():
             break
+    # saturated streams, one of which fails while it waits behind the others: afterwards the rest must still be
+    # held to the limit (an abandoned wait must take exactly its own share out of the queue, no more, no less)
+    for who, k in ((6, 1), (3, 0), (7, 2), (1, 1)):
+        maxrate, amount, nstreams = 100000, 10000, 8
+        sim = simulate(rng.randrange(1 << 30), nstreams, maxrate, amount, (lambda i, k_: 0.0), 24, (lambda i, k_: 0.0), {who: k})
+        res.evaluations += 1
+        if sim['fail'] is not None:
+            res.violation('limiter-hangs', {'traffic': 'saturated, one stream abandoned', 'abandoned': {who: k}}, repr(sim['fail']))
+            continue
+        for sig, w, what in window_violations(sim, maxrate, (2 * nstreams + 4) * amount):
+            res.violation(sig + ':after-abandon', dict(w, streams=nstreams, max_bandwidth=maxrate, read_amount=amount,
+                                                       traffic='saturated', abandoned={who: k}), what)
+        res.nontrivial.add(('abandon-saturated', who, k))
     # D17: the statement's single bound for mixed traffic, on a fixed witness
     for sig, w, what in _d17_probe():
         res.violation(sig, w, what)
